@@ -96,13 +96,16 @@ def judge_population(pop, how, sc, obs):
 
 
 def landing_script(k):
-    return [{'op': 'land_spec', 'arm': S_ARM, 'events': [{'k': k, 'action': 'terminate', 'cap': 8}]},
+    return [{'op': 'land_spec', 'arm': dict(S_ARM, hit=2), 'events': [{'k': k, 'action': 'terminate', 'cap': 8}]},
             {'op': 'respawn_server', 'tag': 'server'},
-            {'op': 'create_async', 'var': 'w', 'kind': 'R', 'target': 'cooperative', 'timeout': 25},
+            {'op': 'create', 'var': 'wc', 'kind': 'R', 'target': 'cooperative', 'tag': 'bystander'},      # first accept: a running child
+            {'op': 'create_async', 'var': 'w', 'kind': 'R', 'target': 'cooperative', 'timeout': 25},        # second accept: armed
             {'op': 'wait_reached', 'tag': 'reached', 'timeout': 8},
             {'op': 'server_stop', 'how': 'terminate', 'tag': 'stop'},
             {'op': 'join_create', 'var': 'w', 'timeout': 20, 'tag': 'ctor', 'stop_on_hang': False},
             {'op': 'land_off'},
+            {'op': 'poll_dead', 'var': 'wc', 'timeout': 10, 'tag': 'by-dead'},
+            {'op': 'get', 'var': 'wc', 'attr': 'error', 'tag': 'by-error'},
             {'op': 'tagged_wait_empty', 'within': 10, 'tag': 'left'}]
 
 
@@ -124,10 +127,10 @@ def run(ctx):
             plan.append(('pop', pop, how, sc))
     # learn the server's start-up path
     from .c20 import create_op
-    probe = land.run_cases([{'script': [{'op': 'land_spec', 'arm': S_ARM}, {'op': 'respawn_server'}, create_op('R'),
+    probe = land.run_cases([{'script': [{'op': 'land_spec', 'arm': dict(S_ARM, hit=2)}, {'op': 'respawn_server'}, dict(create_op('R'), var='w0'), create_op('R'),
                                         {'op': 'call', 'var': 'w', 'method': 'wait', 'args': [10]}, {'op': 'land_report'}, {'op': 'land_off'},
                                         {'op': 'server_stop', 'how': 'terminate'}]}], case_timeout=120)
-    srv_sites = probe[0]['steps'][4]['ret']['sites'] if len(probe[0].get('steps', [])) > 4 else []
+    srv_sites = probe[0]['steps'][5]['ret']['sites'] if len(probe[0].get('steps', [])) > 5 else []
     if not srv_sites:
         ctx.selftest_fail('no landing points recorded in the server (tracer not armed)')
     ks = list(range(1, len(srv_sites) + 1))
@@ -206,6 +209,10 @@ def run(ctx):
                 bad = ('client-constructor-hangs', t.get('ctor'))
             elif t.get('left', {}).get('ret'):
                 bad = ('processes-left-behind', t.get('left'))
+            elif t.get('by-dead', {}).get('ret') is not True:
+                bad = ('running-child-parent-does-not-find-out', t.get('by-dead'))
+            elif t.get('by-error', {}).get('ret') != WTE:
+                bad = ('running-cooperative-child-did-not-report-WorkerTerminatedError', t.get('by-error'))
             ctx.outcome('landing:%s' % (bad[0] if bad else 'ok'))
             if bad:
                 ctx.violation('LAND/stop-terminate@%s/%s' % (land.site_sig(site, os.environ.get('PWV_REPO', '/repo')), bad[0]),
